@@ -1,9 +1,9 @@
 package props
 
 import (
-	"hash/crc32"
 	"bytes"
 	"fmt"
+	"hash/crc32"
 	"os"
 	"path/filepath"
 	"sort"
@@ -369,11 +369,18 @@ func c14Build(name string, seed int64) *c14Model {
 		name = strings.TrimSuffix(name, "-disk")
 	}
 	all := []int{vOrig, vMissing, vFirstChanged, vLastDropped, vPrepended, vOther, vEmpty, vAppendedGarbage, vAppendedZero}
+	// "p2base:<b>" / "p1base:<b>": the small models with the index file named <b>.par2 / <b>.par (base names that end in
+	// the characters of the extension, contain dots, or look like a recovery file's own name)
+	setBase := ""
+	if i := strings.Index(name, "base:"); i == 2 {
+		setBase = name[i+5:]
+		name = map[string]string{"p2": "p2small", "p1": "p1"}[name[:2]]
+	}
 	switch name {
 	case "p2small", "p2large", "p2huge", "p2four", "p2stray-first", "p2stray-mid", "p2-16k", "p2crc8":
 		// small model: a slice-aligned file and a file with a short last slice, both ending in zero bytes, so that
 		// "last byte dropped" / "zero byte appended" are length-only damage that leaves every slice in place
-		cfg := scen.P2Config{Sizes: []int{12, 6}, Slice: 4, Blocks: 4, Class: "trailzero"}
+		cfg := scen.P2Config{Sizes: []int{12, 6}, Slice: 4, Blocks: 4, Class: "trailzero", Base: setBase}
 		if name == "p2large" {
 			cfg = scen.P2Config{Sizes: []int{11, 6, 9}, Slice: 4, Blocks: 8, Class: "uniq"}
 		}
@@ -405,6 +412,9 @@ func c14Build(name string, seed int64) *c14Model {
 		if name == "p2crc8" {
 			m.variants = []int{vOrig, vMissing, vFirstChanged, vSameCRC}
 		}
+		if setBase != "" {
+			m.variants = []int{vOrig, vMissing, vFirstChanged, vPrepended}
+		}
 		if strings.HasPrefix(name, "p2stray") {
 			// a file that matches the recovery-file pattern but holds no packet of this set (the index of another set),
 			// listed first / between the real recovery files: it must be passed over without disturbing its neighbours
@@ -421,7 +431,7 @@ func c14Build(name string, seed int64) *c14Model {
 			m.variants = []int{vOrig, vMissing, vFirstChanged, vPrepended}
 		}
 	case "p1", "p1large":
-		cfg := scen.P1Config{Sizes: []int{7, 4, 9}, Volumes: 2}
+		cfg := scen.P1Config{Sizes: []int{7, 4, 9}, Volumes: 2, Base: setBase}
 		if name == "p1large" {
 			cfg = scen.P1Config{Sizes: []int{7, 4, 9, 2}, Volumes: 3}
 		}
@@ -434,6 +444,9 @@ func c14Build(name string, seed int64) *c14Model {
 		m.nFiles = len(cfg.Sizes)
 		m.paths, m.data, m.vols, m.fs0, m.index = s.Paths, s.Data, s.VolPaths, s.FS0, s.Index
 		m.variants = []int{vOrig, vMissing, vFirstChanged, vEmpty, vOther}
+		if setBase != "" {
+			m.variants = []int{vOrig, vMissing, vFirstChanged}
+		}
 	case "p1full", "p1vol99":
 		// PAR1 at the format's limits: 254 files + 2 volumes fill the 256-shard space; volume number 99 is the last one the
 		// naming scheme (.p01 .. .p99) allows. Events touch the first and last file and the lowest / highest volume.
@@ -681,7 +694,7 @@ func init() {
 	core.Register(&core.Prop{
 		ID:    "C14",
 		Level: "model_checking",
-		Rule: "explicit-state breadth-first search to closure of the directory-state graph. PAR2 small: 2 files (one slice-aligned, both ending in zero bytes) x 9 contents {original, missing, first byte changed, last byte dropped, one byte prepended, other file's content, empty, garbage byte appended, zero byte appended} x 3 recovery files {present, absent}; PAR2 large: 3 files x 9 contents x 4 recovery files; PAR2 with a file of exactly 16384 bytes (3 contents, slice 4096); PAR2 small with a stray file matching the recovery-file pattern (another set's index) listed first / between the recovery files (2 files x 4 contents x 3 recovery files); PAR1: 3 files x 5 contents x 2 volumes; PAR1 at the format's limits: 254 files + volumes .p01/.p02 (full 256-shard space; events on the first and last file, 3 contents) and 3 files with volumes .p01 and .p99 of 99 (the volumes in between never arrived); thorough adds 3 files x 9 contents x 5 recovery files (16 blocks), 4 files x 9 contents x 3 recovery files, and PAR1 4 files x 5 contents x 3 volumes. " +
+		Rule: "explicit-state breadth-first search to closure of the directory-state graph. PAR2 small: 2 files (one slice-aligned, both ending in zero bytes) x 9 contents {original, missing, first byte changed, last byte dropped, one byte prepended, other file's content, empty, garbage byte appended, zero byte appended} x 3 recovery files {present, absent}; PAR2 large: 3 files x 9 contents x 4 recovery files; PAR2 with a file of exactly 16384 bytes (3 contents, slice 4096); PAR2 small with a stray file matching the recovery-file pattern (another set's index) listed first / between the recovery files (2 files x 4 contents x 3 recovery files); PAR1: 3 files x 5 contents x 2 volumes; PAR1 at the format's limits: 254 files + volumes .p01/.p02 (full 256-shard space; events on the first and last file, 3 contents) and 3 files with volumes .p01 and .p99 of 99 (the volumes in between never arrived); the small PAR2 / PAR1 models under 8 other index base names each (ending in characters of the extension, dotted, named like a recovery file, with a blank; 4 contents / 3 contents; alternately in memory and on disk); thorough adds 3 files x 9 contents x 5 recovery files (16 blocks), 4 files x 9 contents x 3 recovery files, and PAR1 4 files x 5 contents x 3 volumes. " +
 			"Plus the Decoder protocol search: EVERY sequence of <=6 (thorough 7) operations {LoadFileData, LoadParityData, both, counts, Repair, Repair+check, delete a, change a, delete b, restore data, delete / restore first recovery file} on ONE exported Decoder object (PAR1, PAR2; in memory via the constructor hook; <=4 (thorough 5) through the exported constructor on a real directory); calls are judged when the object's last loads match the directory (counts == truth; Repair succeeds iff lost <= capacity, restores exactly the damaged files, makes no file worse). " +
 			"Plus non-interference inside one process: every ordered pair, and every triple whose middle call fails or is interrupted (thorough: every triple), of 54 top-level calls (PAR1/PAR2 x Verify in 6 states, Repair in 4 states x 2 sets, Verify / Repair of a twin set with the same geometry and paths but other contents, Repair and Create interrupted by a torn write, Create in 7 variants incl. other block counts); the reference observation of each call comes from a fresh process, each on a private in-memory directory, run back to back with garbage collection off; the last call's full observation (error, result, every write, final directory) must equal that of the same call made alone. " +
 			"Events: damage(f,w), restore(f), delete/restore recovery file, Verify, Repair, Repair+double-check. The small PAR2 and the PAR1 model are searched twice: on the owned in-memory filesystem and through the exported API on a real directory (rewrites detected by modification time). Every Verify/Repair transition executes the real code on a fresh filesystem built from the state (gopar keeps no state between calls). Invariants on every transition: Verify leaves the state unchanged and gives equal results for equal states; successful Repair => all original, Verify clean, a further Repair in both modes writes nothing and lists nothing; failed Repair => every file holds its previous content or its original, and no protected content that was findable before the call (under whatever name) is unfindable after it; from every reachable state, restoring all recovery files and repairing reaches the original whenever capacity suffices. non-trivial = states in which Repair wrote files or failed",
@@ -700,6 +713,13 @@ func init() {
 			g.Emit(&c14Case{Model: "p2stray-mid"})
 			g.Emit(&c14Case{Model: "p1full"})
 			g.Emit(&c14Case{Model: "p1vol99"})
+			// other names for the index file: ending in characters of the extension, dotted, looking like a recovery file
+			for i, b := range []string{"data", "a", "photos2", "foo.par", "s.par2", "s.vol00+01", "pp", "Backup 2"} {
+				g.Emit(&c14Case{Model: "p2base:" + b + []string{"", "-disk"}[i%2]})
+			}
+			for i, b := range []string{"data", "a", "extra", "foo.par", "s.p01", "par", "r.", "Backup p"} {
+				g.Emit(&c14Case{Model: "p1base:" + b + []string{"-disk", ""}[i%2]})
+			}
 			// non-interference of top-level calls within one process: all ordered pairs (and triples) of calls on private directories
 			interfereGen(func(ic *interfereCase) { g.Emit(&c14Case{Model: "interfere", Inter: ic}) }, g.Thorough())
 			// the staged exported API behind Verify / Repair: every operation sequence on ONE Decoder object
